@@ -211,9 +211,16 @@ impl ConsoleAppenderBuilder {
 
         ConsoleAppender {
             writer,
+            #[cfg(not(log4rs_verif))]
             encoder: self
                 .encoder
                 .unwrap_or_else(|| Box::<PatternEncoder>::default()),
+            // verification builds install an explicit encoder: naming the default here would
+            // make the whole pattern engine a candidate of every `dyn Encode` call and drop
+            #[cfg(log4rs_verif)]
+            encoder: self
+                .encoder
+                .expect("verification builds require an explicit encoder"),
             do_write,
         }
     }
